@@ -205,10 +205,16 @@ static DbGrid* buildGrid(const Case* cs)
 }
 
 // a fresh model for every call (no state shared between calls)
-static Model* makeModel(const Case& cs, int irf)
+static Model* makeModel(const Case& cs, int irf, bool expo = false)
 {
   Model* m;
-  if (cs.nvar == 1)
+  if (expo)
+  {
+    // position-free band process (migration): no array indexed by the projected coordinate
+    if (cs.nvar == 1) m = Model::createFromParam(ECov::EXPONENTIAL, 8., 2.);
+    else m = Model::createFromParam(ECov::EXPONENTIAL, 8., 1., 1., VectorDouble(), {2., 0.8, 0.8, 1.5});
+  }
+  else if (cs.nvar == 1)
   {
     m = Model::createFromParam(ECov::SPHERICAL, 8., 2.);
     m->addCovFromParam(ECov::NUGGET, 0., 0.5);
@@ -403,10 +409,10 @@ static Res runOp(const Case& cs, const std::string& op, Db* db)
     pushMatrix(r, a);
     delete m;
   }
-  else if (op == "simtub" || op == "simtub_pt")
+  else if (op == "simtub" || op == "simtub_pt" || op == "simtub_exp")
   {
-    Db* tg = (op == "simtub") ? (Db*)buildGrid(nullptr) : buildTargets(nullptr, cs.hasF);
-    Model* m = makeModel(cs, 0);
+    Db* tg = (op != "simtub_pt") ? (Db*)buildGrid(nullptr) : buildTargets(nullptr, cs.hasF);
+    Model* m = makeModel(cs, 0, op == "simtub_exp");
     ANeigh* ng = makeNeigh("u");
     int nc0 = tg->getColumnNumber();
     int err = simtub(db, tg, m, ng, 2, 52931 + SEED, 8);
